@@ -3,6 +3,8 @@
 # given properties, restores /repo. Prints one line per property: caught / missed.
 D=$1; shift
 cd /verif
+# evidence of runs against a seeded change must never replace the evidence of the unchanged tree
+export VERIF_EVIDENCE_DIR=/tmp/seed-evidence
 git -C /repo diff --quiet || { echo "/repo is dirty; refusing"; exit 2; }
 git -C /repo apply $D/patch.diff || { echo "patch does not apply"; exit 2; }
 for p in "$@"; do
